@@ -33,6 +33,8 @@ mod content_collector;
 mod handshake_state;
 mod heartbeat_timers;
 mod io_loop_handle;
+#[cfg(amiquip_verif)]
+pub(crate) mod verif;
 
 pub(crate) use channel_handle::{Channel0Handle, ChannelHandle};
 use channel_slots::ChannelSlots;
@@ -562,11 +564,18 @@ impl IoLoop {
 
             let had_data_to_write = self.inner.has_data_to_write();
 
+            #[cfg(amiquip_verif)]
+            verif::emit(verif::IoEvent::BatchStart {
+                tokens: events.iter().map(|ev| ev.token().0).collect(),
+            });
+
             for event in events.iter() {
                 handle_event(self, stream, state, event)?;
             }
 
             if is_done(self, state) {
+                #[cfg(amiquip_verif)]
+                verif::emit(verif::IoEvent::LoopExit { ok: true });
                 return Ok(());
             }
 
@@ -612,6 +621,13 @@ impl IoLoop {
                     .reregister(stream, STREAM, Ready::readable(), PollOpt::edge())
                     .context(RegisterWithPollHandleSnafu)?;
             }
+
+            #[cfg(amiquip_verif)]
+            verif::emit(verif::IoEvent::BatchEnd {
+                outbuf_len: self.inner.outbuf.len(),
+                sealed: self.inner.are_writes_sealed(),
+                channels_registered: self.inner.channels_are_registered,
+            });
         }
     }
 }
